@@ -99,10 +99,18 @@ def run_convert(case, ctx):
     _compare(ctx, "convert", tree, want, want_type, text)
     if len(text) > 16384 and any(k == "comment" for k, _v in toks):
         ctx.cls("annotated-document>16KB")
+    if len(text) > 70000 and sum(1 for k, _v in toks if k == "comment") > 500:
+        ctx.cls("heavily-annotated-document>70KB")
     if case["via"] != "stream" and len(want) <= 400:
         # the same file converted again (and again): every conversion is a function of the file
+        prev = tree
         for rep in (2, 3):
-            again = ctx.lib("convert", NeurolucidaAscToSwc.convert, path)
+            # what the caller does with one result (here: moves and re-types it in place) is nothing to the next conversion
+            for col in "xyz":
+                prev.get_ndata(col)[:] = prev.get_ndata(col) + np.float32(100.0 * rep)
+            prev.get_ndata("type")[:] = 7
+            prev.node(0).r = 12345.0
+            again = prev = ctx.lib("convert", NeurolucidaAscToSwc.convert, path if rep == 2 else str(path))
             _compare(ctx, f"convert-again[{rep}]", again, want, want_type, text)
         ctx.cls("same-file-converted-three-times")
     # colours and comments do not change the result
@@ -254,7 +262,7 @@ SUBCHECKS = [
     Sub("convert", convert_strategy, run_convert, quick=1000, thorough=12000, shards_quick=8,
         required={"material-after-inner-split": 60, "empty-non-final-alternative": 60, "empty-first-alternative": 40,
                   "branch>=1000-points": 10, "nesting>=8": 10, "nesting>=1000": 5, "via:convert": 60, "via:call": 60,
-                  "has-colours-or-comments": 100, "comment-right-after-a-split-opens": 15, "comment-right-after-a-bar": 10, "annotated-document>16KB": 15,
+                  "has-colours-or-comments": 100, "comment-right-after-a-split-opens": 15, "comment-right-after-a-bar": 10, "annotated-document>16KB": 15, "heavily-annotated-document>70KB": 15,
                   "same-file-converted-three-times": 100, "label:AXON": 100, "label:DENDRITE": 100}),
     Sub("truncate", truncate_strategy, run_truncate, quick=400, thorough=5000, shards_quick=8,
         required={"cut:last-bracket-only": 200, "cut:inside": 500, "cut:char": 200}),
